@@ -1,6 +1,7 @@
 package main
 
 import (
+	chain "github.com/comdex-official/comdex/app"
 	"encoding/json"
 	"fmt"
 	"os"
@@ -40,6 +41,7 @@ func usage() {
 
 func main() {
 	defer cleanupHome()
+	chain.SetAccountAddressPrefixes() // bech32 prefix "comdex", as on the real networks (the governance contract guards compare address strings)
 	registerDerived()
 	mergeLendParts()
 	if len(os.Args) < 2 {
